@@ -283,6 +283,14 @@ pub fn edits_b0() -> Vec<Edit> {
         Edit::rep("variant_rename_to_own_ident", "variant-rename", c, "    Active,\n", "    #[serde(rename = \"Active\")]\n    Active,\n"),
         Edit::rep("second_emit_site_other_payload", "event-payload", c, "    let _ = (url, on_progress);", "    app.emit(\"download-started\", 7u32).unwrap();\n    let _ = (url, on_progress);"),
         Edit::rep("second_emit_site_same_payload", "event-emit-site", c, "    let _ = (url, on_progress);", "    app.emit(\"download-started\", Progress { done: 1, total: 1 }).unwrap();\n    let _ = (url, on_progress);"),
+        // edits that change nothing in the bindings but move or add items (they matter once the
+        // dependency visualisation, which prints locations and counts, is part of the output)
+        Edit::rep("blank_line_before_command", "layout-shift", c, "#[tauri::command]\npub fn get_user(", "\n\n#[tauri::command]\npub fn get_user("),
+        Edit {
+            name: "add_unreachable_type".into(),
+            class: "unreachable-type-add".into(),
+            ops: vec![EditOp::Append { file: c.into(), text: "\n#[derive(Debug, Clone, Serialize, Deserialize)]\npub struct Lonely {\n    pub a: i32,\n}\n".into() }],
+        },
         Edit::rep("command_macro_case", "command-macro-args", c, "#[tauri::command]\npub fn get_user(", "#[tauri::command(rename_all = \"snake_case\")]\npub fn get_user("),
         Edit::rep("struct_rename_all_split", "serde-rename-all", c, "#[serde(rename_all = \"camelCase\")]\npub struct User", "#[serde(rename_all(serialize = \"SCREAMING_SNAKE_CASE\", deserialize = \"camelCase\"))]\npub struct User"),
         Edit::rep("field_rename_split", "serde-rename", c, "#[serde(rename = \"fullName\")]", "#[serde(rename(serialize = \"displayName\", deserialize = \"fullName\"))]"),
